@@ -217,6 +217,141 @@ Proof.
            destruct (I3 e He) as [?|(e' & He' & Heq)]; [left; assumption|right; exists e'; simpl; auto].
 Qed.
 
+(** * [take_tasks] with a prefill set *)
+
+(** the order in which [take_tasks] pops when a prefill set exists: if the first ready entry has the
+    prefill's priority it goes first, then the prefill set (in its hash order = list order), then the
+    rest of the ready entries *)
+Definition pop_order (q : queue) : list (N * N) :=
+  match q_prefill q with
+  | None => flat_tasks (q_ready q)
+  | Some (pp, ts) =>
+      match q_ready q with
+      | (fp, ids) :: t =>
+          if fp =? pp then map (fun id => (fp, id)) ids ++ map (fun id => (pp, id)) ts ++ flat_tasks t
+          else map (fun id => (pp, id)) ts ++ flat_tasks (q_ready q)
+      | [] => map (fun id => (pp, id)) ts
+      end
+  end.
+
+Lemma firstn_map_snd : forall (p : N) ids k, map snd (firstn k (map (fun id : N => (p, id)) ids)) = firstn k ids.
+Proof. intros p ids. induction ids as [|x t IH]; intros [|k]; simpl; auto. f_equal. apply IH. Qed.
+
+Lemma map_snd_tag : forall (p : N) ids, map snd (map (fun id : N => (p, id)) ids) = ids.
+Proof. intros. rewrite map_map. simpl. apply map_id. Qed.
+
+Lemma firstn_min_len : forall {A} (l : list A) a, firstn (Nat.min a (length l)) l = firstn a l.
+Proof.
+  intros A l a. destruct (Nat.le_gt_cases a (length l)) as [H|H].
+  - rewrite Nat.min_l by assumption. reflexivity.
+  - rewrite Nat.min_r by lia. rewrite firstn_all, firstn_all2 by lia. reflexivity.
+Qed.
+
+Lemma drain_prefill_spec : forall pp ts count,
+  let '(taken, pf, c) := drain_prefill (Some (pp, ts)) count in
+  taken = firstn (N.to_nat count) ts /\ c = count - N.min count (nlen ts)
+  /\ (nlen ts <= count -> pf = None).
+Proof.
+  intros pp ts count. unfold drain_prefill.
+  assert (Hk : N.to_nat (N.min count (nlen ts)) = Nat.min (N.to_nat count) (length ts)) by (unfold nlen; lia).
+  rewrite Hk. split; [|split; [reflexivity|]].
+  - apply firstn_min_len.
+  - intros Hle. rewrite skipn_all2; [reflexivity|]. unfold nlen in Hle. lia.
+Qed.
+
+(** [take_tasks] pops exactly the first [n] tasks of [pop_order] *)
+Theorem take_tasks_prefill_order : forall q n l q',
+  take_tasks q n = Ok (l, q') -> l = map snd (firstn (N.to_nat n) (pop_order q)).
+Proof.
+  intros q n l q' H. unfold take_tasks, pop_order in *.
+  destruct (q_prefill q) as [[pp ts]|] eqn:Ep.
+  - destruct (q_ready q) as [|[fp ids] t] eqn:Er.
+    + (* empty ready part *)
+      pose proof (drain_prefill_spec pp ts n) as Hd. destruct (drain_prefill (Some (pp, ts)) n) as [[taken pf] c].
+      destruct Hd as (Ht & Hc & _).
+      destruct (take_loop [] c) as [[l1 rd1]| |] eqn:E; cbn [bind] in H; try discriminate.
+      inversion H; subst. destruct (take_loop_spec _ _ _ _ E) as (H1 & _ & H3). cbn in H1, H3.
+      rewrite H1. assert (Hc0 : n - N.min n (nlen ts) = 0) by (unfold nlen in *; simpl in H3; lia).
+      rewrite Hc0. simpl. rewrite app_nil_r. rewrite <- (firstn_map_snd pp ts). reflexivity.
+    + destruct (N.eqb_spec fp pp) as [->|Hne].
+      * (* same priority: first entry, prefill, rest *)
+        pose proof (drain_prefill_spec pp ts (n - N.min n (nlen ids))) as Hd.
+        destruct (drain_prefill (Some (pp, ts)) (n - N.min n (nlen ids))) as [[taken pf] c].
+        destruct Hd as (Ht & Hc & _).
+        destruct (take_loop _ c) as [[l1 rd1]| |] eqn:E; cbn [bind] in H; try discriminate.
+        inversion H; subst. clear H. destruct (take_loop_spec _ _ _ _ E) as (H1 & _ & H3).
+        rewrite !firstn_app, !map_app. rewrite !map_length. 
+        rewrite (firstn_map_snd pp ids), (firstn_map_snd pp ts).
+        assert (Hk : N.to_nat (N.min n (nlen ids)) = Nat.min (N.to_nat n) (length ids)) by (unfold nlen; lia).
+        f_equal.
+        { rewrite Hk. apply firstn_min_len. }
+        f_equal.
+        { f_equal. unfold nlen. lia. }
+        (* the rest *)
+        destruct (N.leb_spec (nlen ids) n) as [Hle|Hgt].
+        -- (* first entry exhausted *)
+           assert (Hsk : skipn (N.to_nat (N.min n (nlen ids))) ids = []) by (apply skipn_all2; unfold nlen in *; lia).
+           rewrite Hsk in H1. rewrite H1. rewrite flat_ids_tasks, firstn_map. f_equal. f_equal. unfold nlen in *. lia.
+        -- (* first entry not exhausted: nothing taken beyond it *)
+           assert (Hc0 : n - N.min n (nlen ids) - N.min (n - N.min n (nlen ids)) (nlen ts) = 0) by lia.
+           rewrite Hc0 in H1. simpl in H1. rewrite H1.
+           replace (N.to_nat n - length ids - length ts)%nat with O by (unfold nlen in *; lia). reflexivity.
+      * (* different priority: prefill first *)
+        pose proof (drain_prefill_spec pp ts n) as Hd. destruct (drain_prefill (Some (pp, ts)) n) as [[taken pf] c].
+        destruct Hd as (Ht & Hc & _).
+        destruct (take_loop _ c) as [[l1 rd1]| |] eqn:E; cbn [bind] in H; try discriminate.
+        inversion H; subst. clear H. destruct (take_loop_spec _ _ _ _ E) as (H1 & _ & H3).
+        rewrite firstn_app, map_app, map_length, (firstn_map_snd pp ts). f_equal.
+        rewrite H1, flat_ids_tasks, firstn_map. f_equal. f_equal. unfold nlen. lia.
+  - destruct (take_loop (q_ready q) n) as [[l1 rd1]| |] eqn:E; cbn [bind] in H; try discriminate.
+    inversion H; subst. destruct (take_loop_spec _ _ _ _ E) as (H1 & _ & _).
+    rewrite H1, flat_ids_tasks, firstn_map. reflexivity.
+Qed.
+
+(** with the invariant "the prefill set has the highest priority" (kept by [check_dispose_prefill]) the
+    pop order is by non-increasing priority *)
+Definition prefill_wf (q : queue) : Prop :=
+  ready_wf (q_ready q) /\
+  match q_prefill q with
+  | Some (pp, _) => Forall (fun e => fst e <= pp) (q_ready q)
+  | None => True
+  end.
+
+Lemma flat_tasks_prio_le : forall rd p, Forall (fun e : N * list N => fst e <= p) rd -> Forall (fun b => fst b <= p) (flat_tasks rd).
+Proof.
+  induction rd as [|[q ids] t IH]; intros p H; unfold flat_tasks; simpl; [constructor|].
+  inversion H; subst. apply Forall_app. split; [|apply IH; assumption].
+  apply Forall_forall. intros x Hx. apply in_map_iff in Hx. destruct Hx as (i & <- & _). assumption.
+Qed.
+
+Theorem pop_order_sorted : forall q, prefill_wf q -> StronglySorted (fun a b => fst b <= fst a) (pop_order q).
+Proof.
+  intros q [Hwf Hpf]. unfold pop_order.
+  assert (Hweak : forall rd, ready_wf rd -> StronglySorted (fun a b : N * N => fst b <= fst a) (flat_tasks rd)).
+  { intros rd H. pose proof (flat_tasks_sorted rd H) as Hs. induction Hs as [|a l Hs IH Hall]; constructor; [assumption|].
+    eapply Forall_impl; [|exact Hall]. intros b [Hb|[Hb _]]; lia. }
+  assert (Hconst : forall p ids (rest : list (N * N)), Forall (fun b => fst b <= p) rest ->
+             StronglySorted (fun a b : N * N => fst b <= fst a) rest ->
+             StronglySorted (fun a b : N * N => fst b <= fst a) (map (fun id => (p, id)) ids ++ rest)).
+  { intros p ids rest Hle Hs. induction ids as [|i t IH]; simpl; [assumption|].
+    constructor; [assumption|]. apply Forall_app. split.
+    - apply Forall_forall. intros x Hx. apply in_map_iff in Hx. destruct Hx as (j & <- & _). simpl. lia.
+    - exact Hle. }
+  destruct (q_prefill q) as [[pp ts]|]; [|apply Hweak; assumption].
+  destruct (q_ready q) as [|[fp ids] t] eqn:Er.
+  - rewrite <- (app_nil_r (map _ ts)). apply Hconst; constructor.
+  - destruct Hwf as [Hs Hf]. inversion Hs as [|? ? Hs' Hall]; subst. inversion Hf as [|? ? Hi Hf']; subst.
+    inversion Hpf as [|? ? Hfp Hpf']; subst. simpl in *.
+    destruct (N.eqb_spec fp pp) as [->|Hne].
+    + apply Hconst.
+      * apply Forall_app. split.
+        -- apply Forall_forall. intros x Hx. apply in_map_iff in Hx. destruct Hx as (j & <- & _). simpl. lia.
+        -- apply flat_tasks_prio_le. assumption.
+      * apply Hconst; [apply flat_tasks_prio_le; assumption|apply Hweak; split; assumption].
+    + apply Hconst; [apply flat_tasks_prio_le; constructor; assumption|].
+      apply Hweak. split; [constructor|constructor]; assumption.
+Qed.
+
 (** Non-vacuity: a queue built by [queue_add] from user priorities incl. the extremes of i32. *)
 Definition example_queue : queue :=
   fold_left (fun q t => queue_add q (fst t) (from_user_priority (snd t))) 
